@@ -491,24 +491,18 @@ func (t *Table) update(newPath *Path) *Update {
 // updateVPNIdx keeps the vpnIdx in sync with the VPN path table after each
 // update. It must be called immediately after dst.Calculate so that
 // OldKnownPathList and KnownPathList reflect the state before and after the
-// change respectively.
+// change respectively; oldPath is the path with the same source×pathID that
+// implicitWithdraw / explicitWithdraw removed from the destination, or nil.
+//
+// The index holds, per destination, the best path plus every path received
+// with a non-zero path-ID (ADD-PATH: each (source, path-ID) pair is a distinct
+// entry). Both rules are applied on every update, whatever the path-ID of
+// newPath: paths with and without a path-ID can meet in one destination, and
+// an update of either kind can change which path is the best.
 func (t *Table) updateVPNIdx(u *Update, newPath, oldPath *Path) {
 	if t.vpnIdx == nil {
 		return
 	}
-	if newPath.RemoteID() != 0 {
-		// ADD-PATH: each (source, path-ID) pair is a distinct entry.
-		// oldPath is the previous path with the same source×pathID returned by
-		// implicitWithdraw (non-withdrawal) or explicitWithdraw (withdrawal).
-		if newPath.IsWithdraw {
-			t.vpnIdx.UnregisterPath(oldPath)
-		} else {
-			t.vpnIdx.UnregisterPath(oldPath)
-			t.vpnIdx.RegisterPath(newPath)
-		}
-		return
-	}
-	// No-add-path: track only the best path per NLRI.
 	// KnownPathList is sorted by computeKnownBestPath, so [0] is the best.
 	var oldBest, newBest *Path
 	if len(u.OldKnownPathList) > 0 {
@@ -517,8 +511,16 @@ func (t *Table) updateVPNIdx(u *Update, newPath, oldPath *Path) {
 	if len(u.KnownPathList) > 0 {
 		newBest = u.KnownPathList[0]
 	}
-	if oldBest != newBest {
+	// The replaced or withdrawn path has left the table.
+	t.vpnIdx.UnregisterPath(oldPath)
+	// A path that is no longer the best stays only if it is tracked on its own.
+	if oldBest != nil && oldBest != newBest && oldBest != oldPath && oldBest.RemoteID() == 0 {
 		t.vpnIdx.UnregisterPath(oldBest)
+	}
+	if !newPath.IsWithdraw && newPath.RemoteID() != 0 {
+		t.vpnIdx.RegisterPath(newPath)
+	}
+	if newBest != nil && newBest != oldBest {
 		t.vpnIdx.RegisterPath(newBest)
 	}
 }
